@@ -452,6 +452,8 @@ def _run_impl(case):
             og = I.redundant(src(), *kargs, groups=True) if kargs else I.redundant(src(), groups=True)
             if not isinstance(op, list):
                 raise ValueError("expected a list")
+            if not (isinstance(og, list) and all(isinstance(g, list) for g in og)):
+                raise ValueError("redundant(groups=True) must return a list of lists")
             return {"plain": _flat(ek, op), "groups": _groups(ek, og)}
         # bucketize
         kw = {}
@@ -467,6 +469,8 @@ def _run_impl(case):
             raise ValueError("expected a dict")
         vek = "obj" if case["vt"] is not None else ek
         unk = (lambda k: untok(ek, k)) if key[0] == "id" else unkey
+        if not all(isinstance(v, list) for v in d.values()):
+            raise ValueError("buckets must be lists")
         return {"items": [[unk(k), _flat(vek, v)] for k, v in d.items()]}
     if fn == "bucketize_keys":
         kw = {}
@@ -486,7 +490,10 @@ def _run_impl(case):
     if fn == "partition":
         key = case["key"]
         if key[0] == "bool":
-            t, f = I.partition(src())
+            r = I.partition(src())
+            if not (isinstance(r, tuple) and len(r) == 2):
+                raise ValueError("partition must return a 2-tuple")
+            t, f = r
         elif case.get("flavour") == "attr":        # key='k': the attribute holds True / False
             t, f = I.partition(src(), "k")
         elif case.get("flavour") == "list":        # key=[True, False, ...] parallel to a sized src
@@ -495,6 +502,8 @@ def _run_impl(case):
         else:
             s = set(key[1])
             t, f = I.partition(src(), lambda x: untok(ek, x) in s)
+        if not (isinstance(t, list) and isinstance(f, list)):
+            raise ValueError("partition must return two lists")
         return {"true": _flat(ek, t), "false": _flat(ek, f)}
     if fn == "chunk_ranges":
         def call():
